@@ -35,20 +35,104 @@ AttrValue(a) ==
     [] a.val.k = "str"  -> Str(CleanText(SymsCp(a.val.syms)))
     [] a.val.k = "expr" -> Eval(a.val.e)
 
+(* ---- directives (C04) and v-model (C05) ---- *)
+RECURSIVE JoinWords(_, _, _)
+JoinWords(ws, i, camel) ==
+  IF i > Len(ws) THEN ""
+  ELSE (IF i = 1 THEN ws[1] ELSE IF camel THEN Capitalize(ws[i]) ELSE "-" \o ws[i]) \o JoinWords(ws, i + 1, camel)
+DirName(a) == JoinWords(a.words, 1, a.style = "camel")   \* prefix removed, first letter lower-cased
+
+ModsObj(ms) == Obj([i \in 1..Len(ms) |-> <<ms[i], Bool(TRUE)>>])
+NoArg  == OneOf(<<Absent, Undef>>)
+NoMods == OneOf(<<Absent, Undef, Obj(<<>>)>>)
+
+DirValue(val) ==
+  CASE val.k = "none" -> AnyV
+    [] val.k = "str"  -> Str(SymsCp(val.syms))
+    [] val.k = "expr" -> Eval(val.e)
+    [] val.k = "arr"  -> Eval(val.v)
+DirArg(a) ==
+  IF a.arg # "" THEN Name(a.arg)
+  ELSE IF a.val.k = "arr" /\ a.val.hasArg THEN Eval(a.val.arg) ELSE NoArg
+DirMods(a) ==
+  IF a.mods # <<>> THEN ModsObj(a.mods)
+  ELSE IF a.val.k = "arr" /\ a.val.hasMods /\ a.val.mods # <<>> THEN ModsObj(a.val.mods) ELSE NoMods
+
+DirBinding(a) ==
+  [dir |-> IF DirName(a) = "show" THEN [t |-> "vdir", name |-> "vShow"]
+           ELSE [t |-> "resolved", kind |-> "directive", name |-> DirName(a)],
+   value |-> DirValue(a.val), arg |-> DirArg(a), mods |-> DirMods(a)]
+
+(* which Vue model directive a form element gets *)
+TypeAttr(attrs) ==
+  LET idx == {i \in 1..Len(attrs) : attrs[i].k = "plain" /\ attrs[i].name = "type"} IN
+  IF idx = {} THEN [k |-> "absent"] ELSE attrs[CHOOSE i \in idx : \A j \in idx : i <= j].val
+ModelDirective(el) ==
+  LET vd(n) == [t |-> "vdir", name |-> n] IN
+  IF el.tag.k # "html" THEN AnyV
+  ELSE CASE el.tag.name = "select"   -> vd("vModelSelect")
+         [] el.tag.name = "textarea" -> vd("vModelText")
+         [] el.tag.name = "input" ->
+              LET ty == TypeAttr(el.attrs) IN
+              CASE ty.k = "absent" -> vd("vModelText")
+                [] ty.k = "str" -> IF ty.syms = <<"c">> THEN vd("vModelCheckbox")       \* type="c…": see MC_C05
+                                   ELSE IF ty.syms = <<"r">> THEN vd("vModelRadio") ELSE vd("vModelText")
+                [] OTHER -> vd("vModelDynamic")
+         [] OTHER -> AnyV
+
+VModelArgName(m) ==              \* the prop name a component receives the value under (TLA+ string)
+  CASE m.argform = "none" -> "modelValue"
+    [] m.argform \in {"colon", "str2"} -> m.arg
+    [] m.argform = "computed2" -> Eval(m.argexpr).s
+VModelMods(m) == IF m.modform = "none" \/ m.mods = <<>> THEN <<>> ELSE m.mods
+TargetName(t) == IF t.k = "ident" THEN t.name ELSE t.obj \o "." \o t.prop
+Upd(m) == [t |-> "upd", target |-> TargetName(m.target)]
+
+VModelBinding(m, el) ==
+  [dir |-> ModelDirective(el), value |-> Eval(m.target),
+   arg |-> CASE m.argform = "none" -> NoArg
+             [] m.argform \in {"colon", "str2"} -> Name(m.arg)
+             [] OTHER -> Eval(m.argexpr),
+   mods |-> IF VModelMods(m) = <<>> THEN NoMods ELSE ModsObj(VModelMods(m))]
+
+VModelPropArg(m, host, alt) ==
+  IF host THEN
+    LET n == VModelArgName(m) IN
+    <<Obj(<< <<n, Eval(m.target)>> >>
+          \o (IF VModelMods(m) = <<>> THEN <<>>
+              ELSE << <<(IF n = "modelValue" THEN "model" ELSE n) \o "Modifiers", ModsObj(VModelMods(m))>> >>)
+          \o << <<"onUpdate:" \o n, Upd(m)>> >>)>>
+  ELSE <<Obj(<< <<(IF alt = 2 /\ m.argform # "none" THEN "onUpdate:" \o VModelArgName(m) ELSE "onUpdate:modelValue"), Upd(m)>> >>)>>
+       \* v-model:arg on a form *element*: either listener key is accepted (DESIGN 6.0)
+
 (* the object each attribute contributes, in source order *)
-PropArg(a, o, host) ==
+PropArg(a, o, host, alt) ==
   CASE a.k \in {"plain", "ns"} ->
          IF a.k = "plain" /\ a.name \in {"on", "nativeOn"} /\ o.transformOn
          THEN <<TransformOn(AttrValue(a))>>
          ELSE <<Obj(<< <<AttrKey(a), AttrValue(a)>> >>)>>
     [] a.k = "spread" -> <<Eval(a.e)>>
-    [] a.k = "vhtml"  -> <<Obj(<< <<"innerHTML", Eval(a.e)>> >>)>>
-    [] a.k = "vtext"  -> <<Obj(<< <<"textContent", Eval(a.e)>> >>)>>
+    [] a.k = "vhtml"  -> <<Obj(<< <<"innerHTML", DirValue(a.val)>> >>)>>
+    [] a.k = "vtext"  -> <<Obj(<< <<"textContent", DirValue(a.val)>> >>)>>
+    [] a.k = "vmodel" -> VModelPropArg(a, host, alt)
     [] OTHER -> <<>>
 
-RECURSIVE PropArgs(_, _, _, _)
-PropArgs(attrs, o, host, i) ==
-  IF i > Len(attrs) THEN <<>> ELSE PropArg(attrs[i], o, host) \o PropArgs(attrs, o, host, i + 1)
+RECURSIVE PropArgs(_, _, _, _, _)
+PropArgs(attrs, o, host, i, alt) ==
+  IF i > Len(attrs) THEN <<>> ELSE PropArg(attrs[i], o, host, alt) \o PropArgs(attrs, o, host, i + 1, alt)
+
+(* v-models is the same-order sequence of the v-model attributes it lists *)
+RECURSIVE ExpandVModels(_)
+ExpandVModels(attrs) ==
+  IF attrs = <<>> THEN <<>>
+  ELSE (IF Head(attrs).k = "vmodels" THEN Head(attrs).list ELSE <<Head(attrs)>>) \o ExpandVModels(Tail(attrs))
+
+RECURSIVE DirBindings(_, _, _, _)
+DirBindings(attrs, el, host, i) ==
+  IF i > Len(attrs) THEN <<>>
+  ELSE (CASE attrs[i].k = "dir" -> <<[t |-> "binding"] @@ DirBinding(attrs[i])>>
+          [] attrs[i].k = "vmodel" /\ ~host -> <<[t |-> "binding"] @@ VModelBinding(attrs[i], el)>>
+          [] OTHER -> <<>>) \o DirBindings(attrs, el, host, i + 1)
 
 PropsDenoteArgs(args, o) ==
   IF args = <<>> THEN NullObj
@@ -86,13 +170,60 @@ ChildrenDenote(cs, o) ==
 
 Factory(o) == IF o.pragma = "" THEN "createVNode" ELSE o.pragma
 
+(* ---- slots of component hosts (C03) ---- *)
+Thunk(id, ret) == [t |-> "thunk", id |-> id, ret |-> ret]    \* id "" = any function
+Slots(es)      == [t |-> "slots", es |-> es]
+HasRet(v)      == "ret" \in DOMAIN v
+
+SlotOfValue(v) == IF v.t = "fn" THEN Thunk(v.id, IF HasRet(v) THEN v.ret ELSE AnyV) ELSE v
+AsSlotEntries(v) ==                 \* a runtime value used as the slots of a component
+  CASE v.t = "fn"  -> << <<"default", SlotOfValue(v)>> >>
+    [] v.t = "obj" -> [i \in 1..Len(v.es) |-> <<v.es[i][1], SlotOfValue(v.es[i][2])>>]
+    [] OTHER -> <<>>
+
+(* the value of a function expression written in the source, as a slot *)
+SlotOfExpr(e) ==
+  IF e.k \in {"arrow", "fnexpr"} THEN Thunk("anon", Eval(e.body))
+  ELSE SlotOfValue(Eval(e))
+RECURSIVE ObjLitSlots(_, _)
+ObjLitSlots(es, i) == IF i > Len(es) THEN <<>> ELSE << <<es[i][1], SlotOfExpr(es[i][2])>> >> \o ObjLitSlots(es, i + 1)
+ExprAsSlotEntries(e) == IF e.k = "objlit" THEN ObjLitSlots(e.es, 1) ELSE AsSlotEntries(Eval(e))
+
+VSlotsOf(attrs) ==                   \* entries contributed by a v-slots attribute (<<>> if none)
+  LET idx == {i \in 1..Len(attrs) : attrs[i].k = "vslots"} IN
+  IF idx = {} THEN <<>> ELSE ExprAsSlotEntries(attrs[CHOOSE i \in idx : TRUE].e)
+HasVSlots(attrs) == \E i \in 1..Len(attrs) : attrs[i].k = "vslots"
+
+SlotsDenote(el, o) ==
+  LET ccs   == SelectSeq(Coalesce(el.children), Contributes)
+      vs    == VSlotsOf(el.attrs)
+      wrapped == Slots(<< <<"default", Thunk("", Arr(ChildrenList(ccs, o, 1)))>> >> \o vs)
+  IN
+  IF ccs = <<>> THEN (IF HasVSlots(el.attrs) THEN Slots(vs) ELSE Null)
+  ELSE IF Len(ccs) = 1 /\ ccs[1].k = "expr" THEN
+       LET e == ccs[1].e IN
+       CASE e.k \in {"ident", "call"} ->
+              IF o.enableObjectSlots /\ IsSlotValue(Eval(e))
+              THEN Slots(AsSlotEntries(Eval(e)))     \* passed through as the slots (v-slots: silent, \S6.0)
+              ELSE wrapped
+         [] e.k \in {"arrow", "fnexpr"} -> Slots(<< <<"default", SlotOfExpr(e)>> >> \o vs)
+         [] e.k = "objlit" -> IF HasVSlots(el.attrs)
+                              THEN OneOf(<<Slots(ObjLitSlots(e.es, 1)), Slots(ObjLitSlots(e.es, 1) \o vs)>>)
+                              ELSE Slots(ObjLitSlots(e.es, 1))
+         [] OTHER -> wrapped
+  ELSE wrapped
+
 DenoteElem(el, o) ==
-  LET host == IsComponentHost(el.tag, o) IN
+  LET host  == IsComponentHost(el.tag, o)
+      attrs == ExpandVModels(el.attrs)
+      P(alt) == PropsDenoteArgs(PropArgs(attrs, o, host, 1, alt), o)
+      argModelOnElement == ~host /\ \E i \in 1..Len(attrs) : attrs[i].k = "vmodel" /\ attrs[i].argform # "none"
+  IN
   [t |-> "vnode", factory |-> Factory(o),
    type |-> TagDenotes(el.tag, o),
-   props |-> PropsDenoteArgs(PropArgs(el.attrs, o, host, 1), o),
-   children |-> IF host THEN AnyV ELSE ChildrenDenote(el.children, o),
-   dirs |-> AnyV]
+   props |-> IF argModelOnElement THEN OneOf(<<P(1), P(2)>>) ELSE P(1),
+   children |-> IF host THEN SlotsDenote(el, o) ELSE ChildrenDenote(el.children, o),
+   dirs |-> [t |-> "dirs", xs |-> DirBindings(attrs, el, host, 1)]]
 
 (* ---- comparison of an observed canonical value with a denotation ---- *)
 RECURSIVE ClassTokens(_, _, _)
@@ -112,7 +243,8 @@ AcceptsEntries(oes, des) ==       \* as maps: same keys, each value accepted
 PropKeyRelevant(es, k) ==         \* a falsy listener is the same as no listener
   ~(IsOnKey(k) /\ ~Truthy(ObjGet(es, k)))
 AcceptsProps(o, d) ==
-  IF d.t = "nullobj" THEN o.t = "null" \/ (o.t = "obj" /\ \A i \in 1..Len(o.es) : ~PropKeyRelevant(o.es, o.es[i][1]))
+  IF d.t = "oneof" THEN \E i \in 1..Len(d.alts) : AcceptsProps(o, d.alts[i])
+  ELSE IF d.t = "nullobj" THEN o.t = "null" \/ (o.t = "obj" /\ \A i \in 1..Len(o.es) : ~PropKeyRelevant(o.es, o.es[i][1]))
   ELSE IF d.t # "obj" THEN Accepts(o, d)
   ELSE IF o.t = "null" THEN \A i \in 1..Len(d.es) : ~PropKeyRelevant(d.es, d.es[i][1])
   ELSE /\ o.t = "obj"
@@ -133,6 +265,16 @@ Accepts(o, d) ==
     [] d.t = "arr"   -> o.t = "arr" /\ AcceptsSeq(o.xs, d.xs)
     [] d.t = "obj"   -> o.t = "obj" /\ AcceptsEntries(o.es, d.es)
     [] d.t = "nullobj" -> AcceptsProps(o, d)
+    [] d.t = "fn"    -> o.t = "fn" /\ o.id = d.id
+    [] d.t = "thunk" -> /\ o.t = "thunk" /\ (d.id = "" \/ o.id = d.id)
+                        /\ \A i \in 1..Len(o.calls) : Accepts(o.calls[i], d.ret)
+    [] d.t = "slots" -> o.t = "slots" /\ AcceptsEntries(o.es, d.es)
+    [] d.t = "binding" -> /\ Accepts(o.dir, d.dir) /\ Accepts(o.value, d.value)
+                          /\ Accepts(o.arg, d.arg) /\ Accepts(o.mods, d.mods)
+    [] d.t = "upd" ->     \* firing the listener with a sentinel assigned it to the bound target, and only there
+         /\ o.t = "upd" /\ o.err.t = "none"
+         /\ \E i \in 1..Len(o.after) : o.after[i][1] = d.target
+         /\ \A i \in 1..Len(o.after) : (o.after[i][1] = d.target) <=> (o.after[i][2] = Opq(o.sent))
     [] d.t = "vnode" -> /\ o.t = "vnode"
                         /\ o.factory = d.factory
                         /\ Accepts(o.type, d.type)
